@@ -20,4 +20,4 @@ PY
 cd "$(dirname "$0")/.."
 set +e
 VERIF_REPO="$scratch" ./check "$prop" --no-evidence "$@" | grep -E '^(VIOLATION|KNOWN-FINDING|C[0-9]+ |HARNESS|---)' | cut -c1-300
-echo "mutant exit status: $?"
+echo "mutant done"
